@@ -409,6 +409,16 @@ def oracle_feature_names(ck, rng):
         cat_ = Molecules.concat(pieces)
         if sorted(cat_.features["tag"].to_list()) != tags or not cat_.features.sort("tag").equals(m.drop_features("nul").features.sort("tag")):
             fails.append("concatenating the cutby groups does not give back the rows of the input (with a feature named '.category')")
+        # a grouping key that is null for some molecules: those molecules form a group too (group_by partitions the input)
+        got_tags = []
+        for key, sub in m.group_by("nul"):
+            got_tags += sub.features["tag"].to_list()
+            kv = key[0] if isinstance(key, tuple) else key
+            want_rows = m.features.filter(pl.col("nul").is_null() if kv is None else (pl.col("nul") == kv))
+            if not sub.features.equals(want_rows):
+                fails.append(f"group_by('nul') group {key!r} is not the rows of the input with that key")
+        if sorted(got_tags) != tags:
+            fails.append(f"group_by on a key with nulls loses or duplicates molecules: tags {sorted(got_tags)} of {tags}")
         for key, sub in m.group_by("cat"):
             if list(sub.features.columns) != base_cols or not sub.features.equals(m.features.filter(pl.col("cat") == key)):
                 fails.append(f"group_by group {key} is not the selected rows of the input")
